@@ -78,7 +78,7 @@ Moves ==
 \* which budget a move draws from
 BudgetOf(kind, in) ==
   CASE kind = "way" -> IF \E j \in 1..Len(env.inj) : env.inj[j].k = "way" /\ env.inj[j].echo = in.echo THEN "way2" ELSE "way"
-    [] kind = "hs"  -> IF in.party = "A" THEN "atk" ELSE IF in.sig = "bad" \/ in.rec = "none" THEN "badhs" ELSE "hs"
+    [] kind = "hs"  -> IF in.party = "A" THEN "atk" ELSE IF in.sig # "own" \/ in.rec = "none" THEN "badhs" ELSE "hs"
     [] kind = "rand" -> IF in.party = "A" THEN "atk" ELSE "rand"
     [] kind = "appr" -> "msg"      \* application reactions are not budgeted separately
     [] OTHER -> kind
@@ -209,6 +209,9 @@ GoalForeignEnrAnswer == ~(last.in.k = "PeerMessage" /\ last.rin.k = "msg" /\ las
 \* the answer to the node's own record request arrives after that request has timed out (the session is kept), while another
 \* request to the peer is in flight: the peer is reported established, the other request keeps its exemption
 GoalLateEnrAnswer == ~(last.lateInt /\ \E i \in 1..Len(h.ev) : h.ev[i].e = "Established")
+\* the attacker answers a challenge meant for a known node with bytes that are no signature at all
+GoalJunkSigHs == ~(last.in.k = "PeerHandshake" /\ last.in.party = "A" /\ last.in.claim # "A" /\ last.in.sig \in {"zero64", "junk0", "junk63"}
+                   /\ last.rin.k = "hs" /\ HasChal(h, Addr(last.rin.src, last.rin.from)))
 GoalBadSigKeepsChallenge == ~(last.rin.k = "hs" /\ last.rin.signer = "bad" /\ HasChal(h, Addr(last.rin.src, last.rin.from)))
 GoalReplayedHs  == ~(last.in.k = "Replay" /\ last.rin.k = "hs" /\ Len(h.sessq) >= 1)
 =============================================================================
